@@ -157,11 +157,15 @@ pub fn finish(o: Outcome) -> i32 {
             println!("KNOWN-FINDING: property={} {} (e.g. {})", k.prop, k.text, f.summary);
         }
     }
-    if !o.machinery.is_empty() {
+    if !o.machinery.is_empty() && violations.is_empty() {
         for m in &o.machinery {
             println!("MACHINERY-ERROR property={}: {m}", o.prop);
         }
         return 2;
+    }
+    // violations that stand on their own are reported even if the machinery also had trouble somewhere else
+    for m in &o.machinery {
+        println!("NOTE (machinery trouble elsewhere in this run) property={}: {m}", o.prop);
     }
     if violations.is_empty() {
         println!("OK property={} tier={} ({:.1}s)", o.prop, o.tier, o.wall_s);
